@@ -8,15 +8,15 @@ open Rx Rx.Gen.Distinct
 def absDistinct (g : DistinctObserver) : St1 := .distinct g.seen
 
 theorem tie_Distinct_next (g : DistinctObserver) (v : Val) :
-    (DistinctObserver.next g v).map (fun r => (absDistinct r.1, r.2)) = some (St1.onNext (absDistinct g) v) := by
+    (DistinctObserver.next g v).map (fun r => (absDistinct r.1, r.2)) = some (Rs.lift (St1.onNext (absDistinct g) v)) := by
   rcases g with ⟨⟩ <;> rs_tie [DistinctObserver.next, absDistinct, St1.onNext]
 
 theorem tie_Distinct_error (g : DistinctObserver) (e : Err) :
-    (DistinctObserver.error g e).map (fun r => r.2) = some (St1.onError' (absDistinct g) e).2 := by
+    (DistinctObserver.error g e).map (fun r => r.2) = some ((St1.onError' (absDistinct g) e).2.map Rs.Ev.n) := by
   rcases g with ⟨⟩ <;> rs_tie [DistinctObserver.error, absDistinct, St1.onError']
 
 theorem tie_Distinct_complete (g : DistinctObserver) :
-    (DistinctObserver.complete g).map (fun r => r.2) = some (St1.onComplete' (absDistinct g)).2 := by
+    (DistinctObserver.complete g).map (fun r => r.2) = some ((St1.onComplete' (absDistinct g)).2.map Rs.Ev.n) := by
   rcases g with ⟨⟩ <;> rs_tie [DistinctObserver.complete, absDistinct, St1.onComplete']
 
 
@@ -27,15 +27,15 @@ theorem tie_Distinct_init  :
 def absDistinctKey (g : DistinctKeyObserver) : St1 := .distinctKey g.key g.seen
 
 theorem tie_DistinctKey_next (g : DistinctKeyObserver) (v : Val) :
-    (DistinctKeyObserver.next g v).map (fun r => (absDistinctKey r.1, r.2)) = some (St1.onNext (absDistinctKey g) v) := by
+    (DistinctKeyObserver.next g v).map (fun r => (absDistinctKey r.1, r.2)) = some (Rs.lift (St1.onNext (absDistinctKey g) v)) := by
   rcases g with ⟨⟩ <;> rs_tie [DistinctKeyObserver.next, absDistinctKey, St1.onNext]
 
 theorem tie_DistinctKey_error (g : DistinctKeyObserver) (e : Err) :
-    (DistinctKeyObserver.error g e).map (fun r => r.2) = some (St1.onError' (absDistinctKey g) e).2 := by
+    (DistinctKeyObserver.error g e).map (fun r => r.2) = some ((St1.onError' (absDistinctKey g) e).2.map Rs.Ev.n) := by
   rcases g with ⟨⟩ <;> rs_tie [DistinctKeyObserver.error, absDistinctKey, St1.onError']
 
 theorem tie_DistinctKey_complete (g : DistinctKeyObserver) :
-    (DistinctKeyObserver.complete g).map (fun r => r.2) = some (St1.onComplete' (absDistinctKey g)).2 := by
+    (DistinctKeyObserver.complete g).map (fun r => r.2) = some ((St1.onComplete' (absDistinctKey g)).2.map Rs.Ev.n) := by
   rcases g with ⟨⟩ <;> rs_tie [DistinctKeyObserver.complete, absDistinctKey, St1.onComplete']
 
 
@@ -46,16 +46,16 @@ theorem tie_DistinctKey_init (key : Val → Val) :
 def absDistinctUntilChanged (g : DistinctUntilChangedObserver) : St1 := .distinctUntilChanged g.last
 
 theorem tie_DistinctUntilChanged_next (g : DistinctUntilChangedObserver) (v : Val) :
-    (DistinctUntilChangedObserver.next g v).map (fun r => (absDistinctUntilChanged r.1, r.2)) = some (St1.onNext (absDistinctUntilChanged g) v) := by
+    (DistinctUntilChangedObserver.next g v).map (fun r => (absDistinctUntilChanged r.1, r.2)) = some (Rs.lift (St1.onNext (absDistinctUntilChanged g) v)) := by
   rcases g with ⟨o, _ | l⟩ <;> rs_simp [DistinctUntilChangedObserver.next, absDistinctUntilChanged, St1.onNext]
   by_cases h : l = v <;> simp [h]
 
 theorem tie_DistinctUntilChanged_error (g : DistinctUntilChangedObserver) (e : Err) :
-    (DistinctUntilChangedObserver.error g e).map (fun r => r.2) = some (St1.onError' (absDistinctUntilChanged g) e).2 := by
+    (DistinctUntilChangedObserver.error g e).map (fun r => r.2) = some ((St1.onError' (absDistinctUntilChanged g) e).2.map Rs.Ev.n) := by
   rcases g with ⟨⟩ <;> rs_tie [DistinctUntilChangedObserver.error, absDistinctUntilChanged, St1.onError']
 
 theorem tie_DistinctUntilChanged_complete (g : DistinctUntilChangedObserver) :
-    (DistinctUntilChangedObserver.complete g).map (fun r => r.2) = some (St1.onComplete' (absDistinctUntilChanged g)).2 := by
+    (DistinctUntilChangedObserver.complete g).map (fun r => r.2) = some ((St1.onComplete' (absDistinctUntilChanged g)).2.map Rs.Ev.n) := by
   rcases g with ⟨⟩ <;> rs_tie [DistinctUntilChangedObserver.complete, absDistinctUntilChanged, St1.onComplete']
 
 
@@ -66,16 +66,16 @@ theorem tie_DistinctUntilChanged_init  :
 def absDistinctUntilKeyChanged (g : DistinctUntilKeyChangedObserver) : St1 := .distinctUntilKeyChanged g.key g.last
 
 theorem tie_DistinctUntilKeyChanged_next (g : DistinctUntilKeyChangedObserver) (v : Val) :
-    (DistinctUntilKeyChangedObserver.next g v).map (fun r => (absDistinctUntilKeyChanged r.1, r.2)) = some (St1.onNext (absDistinctUntilKeyChanged g) v) := by
+    (DistinctUntilKeyChangedObserver.next g v).map (fun r => (absDistinctUntilKeyChanged r.1, r.2)) = some (Rs.lift (St1.onNext (absDistinctUntilKeyChanged g) v)) := by
   rcases g with ⟨o, k, _ | l⟩ <;> rs_simp [DistinctUntilKeyChangedObserver.next, absDistinctUntilKeyChanged, St1.onNext]
   by_cases h : k l = k v <;> simp [h]
 
 theorem tie_DistinctUntilKeyChanged_error (g : DistinctUntilKeyChangedObserver) (e : Err) :
-    (DistinctUntilKeyChangedObserver.error g e).map (fun r => r.2) = some (St1.onError' (absDistinctUntilKeyChanged g) e).2 := by
+    (DistinctUntilKeyChangedObserver.error g e).map (fun r => r.2) = some ((St1.onError' (absDistinctUntilKeyChanged g) e).2.map Rs.Ev.n) := by
   rcases g with ⟨⟩ <;> rs_tie [DistinctUntilKeyChangedObserver.error, absDistinctUntilKeyChanged, St1.onError']
 
 theorem tie_DistinctUntilKeyChanged_complete (g : DistinctUntilKeyChangedObserver) :
-    (DistinctUntilKeyChangedObserver.complete g).map (fun r => r.2) = some (St1.onComplete' (absDistinctUntilKeyChanged g)).2 := by
+    (DistinctUntilKeyChangedObserver.complete g).map (fun r => r.2) = some ((St1.onComplete' (absDistinctUntilKeyChanged g)).2.map Rs.Ev.n) := by
   rcases g with ⟨⟩ <;> rs_tie [DistinctUntilKeyChangedObserver.complete, absDistinctUntilKeyChanged, St1.onComplete']
 
 
